@@ -101,17 +101,17 @@ class _Concat(Contract):
         elif other_kind == "placeholder":
             n = I.fresh("ph", "str")
             o, otoks = SObj(PH, {"name": n}), [("P", n.t)]
-        elif other_kind == "string":
+        elif other_kind in ("string", "plainstring"):
             o, otoks = mk_concrete_string(I, "WS", tag="o")
-            if cls == "SigmaCasedString":
+            if cls == "SigmaCasedString" and other_kind == "string":
                 o = SObj(I.E.index.lookup(f"{TY}:SigmaCasedString"), dict(o.fields))
         else:
             o, otoks = 5, None
-        return {"self": me, "args": [o], "toks": toks, "otoks": otoks, "o": o, "case": case, "before": list(me.fields["s"]), "obefore": list(o.fields["s"]) if other_kind == "string" else None}
+        return {"self": me, "args": [o], "toks": toks, "otoks": otoks, "o": o, "case": case, "before": list(me.fields["s"]), "obefore": list(o.fields["s"]) if other_kind in ("string", "plainstring") else None}
 
     def post(self, I, inp, r):
         c, (shape, kind, cls) = I.ctx, inp["case"]
-        if inp["otoks"] is None or (self.right and kind == "string"):
+        if inp["otoks"] is None or (self.right and kind in ("string", "plainstring")):
             c.require(isinstance(r, NotImplementedVal) if "NotImplementedVal" in globals() else getattr(r, "__class__", None).__name__ in ("NotImplementedVal", "NotImplementedType") or r is NotImplemented, "an operand of another type is not handled (NotImplemented)")
             return
         ok = isinstance(r, SObj) and getattr(r.cls, "name", None) == cls and r is not inp["self"]
@@ -131,11 +131,11 @@ class _Concat(Contract):
 
 @register
 class StringAdd(_Concat):
-    """SigmaString.__add__: self + other (a SigmaString of the same class, text, wildcard or placeholder): a new string of this class whose
+    """SigmaString.__add__: self + other (any Sigma string - also a plain one on the right of a case-sensitive one -, text, wildcard or placeholder): a new string of the class of the LEFT operand whose
     parts are this string's parts followed by the other's, merged; neither operand changes"""
     id = "C05.SigmaString.__add__"
     target = f"{TY}:SigmaString.__add__"
-    cases = tuple((s, k, c) for s in ("", "S", "SW", "WP") for k in ("str", "wildcard", "placeholder", "string", "int") for c in ("SigmaString", "SigmaCasedString"))
+    cases = tuple((s, k, c) for s in ("", "S", "SW", "WP") for k in ("str", "wildcard", "placeholder", "string", "plainstring", "int") for c in ("SigmaString", "SigmaCasedString"))
 
 
 @register
